@@ -133,8 +133,8 @@ class World:
         self.types[name] = ty
         if rel: self.rec_src[name] = (rel, cls or name)
         return ty
-    def any(self, name):
-        ty = TAny(name); self.types[name] = ty; return ty
+    def any(self, name, truthy=None):
+        ty = TAny(name, truthy); self.types[name] = ty; return ty
     def refclass(self, name, fields, rel=None, cls=None):
         self.types[name] = TRef(name); self.classes[name] = dict(fields)
         if rel: self.class_src[name] = (rel, cls or name)
@@ -197,6 +197,21 @@ class Obligation:
                     status=self.status, backend=self.backend, seconds=round(self.seconds, 4),
                     model=self.model, where=self.where)
 
+_hq_cache = {}
+def has_quant(f):
+    k = f.get_id()
+    if k in _hq_cache: return _hq_cache[k]
+    seen = set(); stack = [f]; r = False
+    while stack:
+        t = stack.pop()
+        i = t.get_id()
+        if i in seen: continue
+        seen.add(i)
+        if z3.is_quantifier(t): r = True; break
+        stack.extend(t.children())
+    _hq_cache[k] = r
+    return r
+
 # ------------------------------------------------------------------ state
 class State:
     def __init__(self):
@@ -215,6 +230,7 @@ class Exec:
     def __init__(self, world, verifier, chooser, timeout_ms):
         self.w = world; self.vf = verifier; self.ch = chooser
         self.solver = z3.Solver(); self.solver.set('timeout', timeout_ms)
+        self.ground = z3.Solver(); self.ground.set('timeout', 2000)     # quantifier-free facts only: fast branch pruning
         self.timeout_ms = timeout_ms
         self.st = State(); self.old = None
         self.spec = 0; self.nofork = 0
@@ -232,17 +248,28 @@ class Exec:
     def assume(self, f):
         if z3.is_true(f): return
         self.solver.add(f); self.npc += 1
+        if not has_quant(f): self.ground.add(f)
         if self.facts_log is not None: self.facts_log.append(f)
-    def feasible(self, f=None):
-        self.solver.set('timeout', min(self.timeout_ms, 3000))
-        r = self.solver.check(f) if f is not None else self.solver.check()
-        self.solver.set('timeout', self.timeout_ms)
+    def push(self): self.solver.push(); self.ground.push()
+    def pop(self): self.solver.pop(); self.ground.pop()
+    def feasible(self, f=None, full=False):
+        if f is not None and has_quant(f): full = True
+        if full:
+            self.solver.set('timeout', 1500)
+            r = self.solver.check(f) if f is not None else self.solver.check()
+            self.solver.set('timeout', self.timeout_ms)
+        else:
+            r = self.ground.check(f) if f is not None else self.ground.check()
         return r != z3.unsat
     def branch(self, cond, exceptional=False):
         c = z3.simplify(cond)
         if z3.is_true(c): return True
         if z3.is_false(c): return False
         ft = self.feasible(c); ff = self.feasible(z3.Not(c))
+        if ft and ff and (exceptional or self.nofork or self.spec) and self.has_quant_facts():
+            # the quantified facts (preconditions, invariants) may rule a side out
+            if exceptional: ft = self.feasible(c, full=True)
+            else: ft = self.feasible(c, full=True); ff = self.feasible(z3.Not(c), full=True)
         if ft and not ff: return True
         if ff and not ft: return False
         if not ft and not ff: raise Infeasible()
@@ -251,6 +278,8 @@ class Exec:
         if self.ch.choose(2) == 0:
             self.assume(c); return True
         self.assume(z3.Not(c)); return False
+    def has_quant_facts(self):
+        return len(self.solver.assertions()) != len(self.ground.assertions())
     def choose(self, n):
         if self.nofork or self.spec: raise NeedFork()
         return self.ch.choose(n)
@@ -269,6 +298,9 @@ class Exec:
         if name in env: return env[name]
         fr = self.frame
         if name in fr.get('extra', {}): return fr['extra'][name]
+        if self.spec:
+            if name in self.w.defs or name in self.w.ufuncs or name in SPEC_BUILTINS: return SpecFn(name)
+            if name in self.w.types and name not in BUILTINS: return TypeObj(self.w.types[name])
         # enclosing function closures (state vars live in env already)
         if name in fr.get('local_funcs', {}): return fr['local_funcs'][name]
         return self.lookup_module(fr['rel'], name)
@@ -474,11 +506,11 @@ class Exec:
     def pure_elem(self, it, i):
         """evaluate element i of a virtual sequence for an arbitrary in-range i, without forking;
         facts learnt are generalised (forall i in range)"""
-        self.solver.push()
+        self.push()
         saved_log = self.facts_log; self.facts_log = []
         self.nofork += 1; self.binders.append(i)
         try:
-            self.solver.add(i >= 0, i < it.ln)
+            self.solver.add(i >= 0, i < it.ln); self.ground.add(i >= 0, i < it.ln)
             try:
                 elem = self.val(it.get(i))
             except NeedFork:
@@ -486,7 +518,7 @@ class Exec:
             facts = self.facts_log
         finally:
             self.nofork -= 1; self.binders.pop(); self.facts_log = saved_log
-            self.solver.pop()
+            self.pop()
         if facts:
             self.assume(z3.ForAll([i], z3.Implies(z3.And(i >= 0, i < it.ln), z3.And(*facts))))
         return elem
@@ -502,10 +534,7 @@ class Exec:
             if z3.is_false(go): return cur
             if z3.is_true(go): cur = self.eval(nxt); continue
             if self.spec:
-                self.solver.push()
-                try:
-                    self.solver.add(go); r = self.val(self.eval(nxt))
-                finally: self.solver.pop()
+                r = self.val(self.eval(nxt))
                 cur = vite(go, r, cur); continue
             # code mode: speculative pure evaluation under the guard, else fork
             r = self.try_pure(lambda: self.val(self.eval(nxt)), guard=go)
@@ -519,11 +548,11 @@ class Exec:
     def try_pure(self, thunk, guard=None):
         """evaluate thunk speculatively: no forks, no side effects; returns None if it needed either"""
         saved = self.st.copy(); saved_npc = self.npc
-        self.solver.push(); self.nofork += 1
+        self.push(); self.nofork += 1
         saved_log = self.facts_log; self.facts_log = []
         ok = False
         try:
-            if guard is not None: self.solver.add(guard)
+            if guard is not None: self.solver.add(guard); self.ground.add(guard)
             try:
                 r = thunk(); ok = True
             except (NeedFork, RaiseSig):
@@ -531,7 +560,7 @@ class Exec:
             facts = self.facts_log
         finally:
             self.nofork -= 1; self.facts_log = saved_log
-            self.solver.pop()
+            self.pop()
         if not ok or not self._same_state(saved):
             self.st = saved; return None
         for f in facts:
@@ -813,6 +842,17 @@ class Exec:
             return BoundBuiltin(obj, attr, node.value if node is not None else None)
         raise Unsupported('attribute %s on %r' % (attr, ty))
 
+    def co(self, v, ty):
+        """coerce with Optional narrowing: Opt[T] -> T is allowed when the value is provably not None on this path
+        (otherwise the None case raises TypeError, like using None where an object is required would)"""
+        v = self.val(v)
+        try: return coerce(v, ty)
+        except Unsupported:
+            if isinstance(v.ty, TOpt) and not isinstance(ty, TOpt):
+                if not self.spec and self.branch(v.t[0], exceptional=True): self.raise_exc('TypeError')
+                return coerce(v.t[1], ty)
+            raise
+
     def heap_field(self, cls, attr, fty):
         key = '%s.%s' % (cls, attr)
         if key not in self.st.heap:
@@ -828,7 +868,7 @@ class Exec:
         if attr not in fields: raise Unsupported('store to undeclared field %s.%s' % (obj.ty.cls, attr))
         fty = self.w.ty(fields[attr])
         arr = self.heap_field(obj.ty.cls, attr, fty)
-        self.st.heap['%s.%s' % (obj.ty.cls, attr)] = z3.Store(arr, obj.t, pack(coerce(v, fty)))
+        self.st.heap['%s.%s' % (obj.ty.cls, attr)] = z3.Store(arr, obj.t, pack(self.co(v, fty)))
 
     def e_Subscript(self, n):
         obj = self.eval(n.value)
@@ -950,6 +990,19 @@ class Exec:
 
     # ---------------- calls
     def e_Call(self, n):
+        if self.spec and isinstance(n.func, ast.Name) and n.func.id == 'old':
+            if self.old is None: raise Unsupported('old() without a pre-state')
+            saved = self.st
+            st = State(); st.env = dict(saved.env); st.env.update(self.old.env); st.heap = dict(self.old.heap); st.alloc = self.old.alloc
+            # quantifier-bound / lambda variables keep their current binding
+            for k, v in saved.env.items():
+                if k not in self.old.env: st.env[k] = v
+            self.st = st
+            try: return self.eval(n.args[0])
+            finally:
+                for k, v in st.heap.items():
+                    if k not in self.old.heap: self.old.heap[k] = v
+                self.st = saved
         f = self.eval(n.func)
         args = []
         for a in n.args:
@@ -990,8 +1043,8 @@ class Exec:
     def construct_type(self, ty, args, kwargs):
         if isinstance(ty, TRec):
             vals = {}
-            for (fname, fty), a in zip(ty.fields, args): vals[fname] = coerce(self.val(a), fty)
-            for k, a in kwargs.items(): vals[k] = coerce(self.val(a), ty.fty(k))
+            for (fname, fty), a in zip(ty.fields, args): vals[fname] = self.co(a, fty)
+            for k, a in kwargs.items(): vals[k] = self.co(a, ty.fty(k))
             if len(vals) != len(ty.fields): raise Unsupported('record constructor with defaults')
             return V(ty, vals)
         raise Unsupported('constructing %r' % ty)
@@ -1138,7 +1191,7 @@ class Exec:
                 try: v = self.eval(v[1])
                 finally: self.frames.pop(); self.st.env = saved
             if k in c.params and isinstance(v, (V, IterV)):
-                v = coerce(self.val(v), w.ty(c.params[k]))
+                v = self.co(v, w.ty(c.params[k]))
             vals[k] = v
         ordinal = self.call_counts.get(fr.key, 0); self.call_counts[fr.key] = ordinal + 1
         site = '%s@%s#%d' % (fr.qual, self.frame_name(), ordinal)
